@@ -31,6 +31,7 @@ class C02(OracleBase):
     mc = [("SkywayOracle_mc", "SkywayOracle_mc", ("quick", "thorough")), ("SkywayOracle_mc", "SkywayOracle_act", ("quick", "thorough"))]
     gens = [Gen("SkywayOracleGen", "SkywayOracleGen_cover", "bfs", tiers=("quick", "thorough"), timeout=900),
             Gen("SkywayOracleGen", "SkywayOracleGen_reopen", "bfs", tiers=("quick", "thorough"), timeout=600),
+            Gen("SkywayOracleGen", "SkywayOracleGen_rebind", "bfs", tiers=("quick", "thorough"), timeout=600),
             Gen("SkywayOracleGen", "SkywayOracleGen_sim", "simulate", num=1500, depth=16, tiers=("quick",)),
             Gen("SkywayOracleGen", "SkywayOracleGen_sim", "simulate", num=20000, depth=16, tiers=("thorough",))]
 
